@@ -16,6 +16,12 @@ fi
 "$bin/c06" -tier "$tier" "$@"; rc1=$?
 [ $rc1 -ge 2 ] && exit $rc1
 case " $* " in *" -replay "*) exit $rc1;; esac
+if [ "$tier" = thorough ] && command -v gcc >/dev/null 2>&1 && CGO_ENABLED=1 go build "${ov[@]+"${ov[@]}"}" -o "$bin/c06cgo" ./props/c06 2> "$bin/c06cgo.buildlog"; then
+  # the same fault enumeration on the czlib decompression path (osmpbf/zlib_cgo.go)
+  VERIF_EVIDENCE_PART=cgo-czlib "$bin/c06cgo" -tier "$tier" "$@"; rc3=$?
+  [ $rc3 -ge 2 ] && exit $rc3
+  [ $rc3 -ne 0 ] && rc1=$rc3
+fi
 VERIF_EVIDENCE_PART=schedules LC_NAME=c06sched "$ROOT/engine/run_a.sh" C06 "$tier" -pkg osmpbf:decode.go,scanner.go,decode_data.go -sub sched -- "$@"; rc2=$?
 [ $rc2 -ge 2 ] && exit $rc2
 [ $rc1 -ne 0 ] && exit $rc1
